@@ -20,6 +20,7 @@ import NR.RangeCheck
 import NR.Sched
 import NR.Mix
 import NR.Front
+import NR.LatestEst
 namespace NR.Driver
 open NR
 
@@ -244,6 +245,14 @@ def stepEstWait (ws : List String) : String :=
     | some mx, some la, some pe, some acc, some cnt, some items =>
       "est " ++ (if WaitEst.estVehicle mx la (td = "1") pe acc cnt items then "1" else "0")
     | _, _, _, _, _, _ => "bad-op"
+  | "latest" :: ref :: pe :: lat :: items =>
+    let r? : Option LatestEst.Ref := if ref = "start" then some .start else if ref = "finish" then some .finish
+      else if ref = "arrival" then some .arrival else none
+    match r?, parseRat? pe, parseRats? (lat.splitOn ","), allSome (items.map parseWaitItem) with
+    | some r, some pe, some lat, some items =>
+      if lat.length ≠ items.length then "bad-op"
+      else "est " ++ (if LatestEst.est r pe (List.zip items lat) then "1" else "0")
+    | _, _, _, _ => "bad-op"
   | "waits" :: td :: pe :: cnt :: items =>
     match parseRat? pe, cnt.toNat?, allSome (items.map parseWaitItem) with
     | some pe, some cnt, some items =>
@@ -255,6 +264,7 @@ def stepEst (ws : List String) : String :=
   match ws with
   | "waitv" :: _ => stepEstWait ws
   | "waits" :: _ => stepEstWait ws
+  | "latest" :: _ => stepEstWait ws
   | ["max", regime, mx, base, win, tail, ocn, ol, hn, delta] =>
     match parseRat? mx, parseRat? base, (if win = "-" then some [] else parseRats? (win.splitOn ",")),
           (if tail = "-" then some [] else parseRats? (tail.splitOn ",")), parseRat? ocn, parseRat? ol, parseRat? delta with
